@@ -16,7 +16,7 @@ def analyse(ctx: CheckContext, p: Program):
 def run(ctx: CheckContext):
     p = Program()
     analyse(ctx, p)
-    ctx.floor("ACC", 8)
+    ctx.floor("ACC", 7)
     ctx.floor("OWN", 4)
     ctx.assumptions += [
         "decides the additivity sentence only (total-process record = sum over zones, value by value and utility by utility, computed on private copies); "
